@@ -217,15 +217,26 @@ impl NoGoodStore {
                 DuplicateElemination::None => true,
                 DuplicateElemination::Equiv => !self.store[idx].contains(&nogood),
                 DuplicateElemination::Subsume => {
-                    self.store
-                        .iter_mut()
+                    // a stored nogood which is contained in the new one already excludes it
+                    let subsumed = self
+                        .store
+                        .iter()
                         .enumerate()
-                        .for_each(|(cur_idx, ng_vec)| {
-                            if idx >= cur_idx {
-                                ng_vec.retain(|ng| !ng.is_violating(&nogood));
-                            }
+                        .any(|(cur_idx, ng_vec)| {
+                            idx >= cur_idx && ng_vec.iter().any(|ng| ng.is_violating(&nogood))
                         });
-                    true
+                    if !subsumed {
+                        // drop the stored nogoods which contain the new one
+                        self.store
+                            .iter_mut()
+                            .enumerate()
+                            .for_each(|(cur_idx, ng_vec)| {
+                                if idx <= cur_idx {
+                                    ng_vec.retain(|ng| !nogood.is_violating(ng));
+                                }
+                            });
+                    }
+                    !subsumed
                 }
             } {
                 self.store[idx].push(nogood);
